@@ -371,7 +371,64 @@ def _pred_seeds(rng):
             add(f"btclib.script.script_pub_key.{n}", [B(sc)])
     add("btclib.block.proof_of_work.is_negative_bits", [B(bytes.fromhex("1d00ffff"))])
     add("btclib.descriptors.miniscript.reads_back", [B(bytes.fromhex("21" + pub33.hex() + "ac"))])
-    add("btclib.script.engine.script.check_pub_key", [B(pub33), False, 0])
+    add("btclib.script.engine.script.check_pub_key", [B(pub33), False, {"flag": 0}])
+    add("btclib.script.engine.script.check_pub_key", [B(pub65), True, {"flag": 0}])
+    _try("batch", lambda: _batch_seeds(add))
+    _try("musig2", lambda: _musig2_seeds(add))
+    _try("borromean", lambda: _borromean_seeds(add))
+
+
+def _batch_seeds(add):
+    from btclib.ecc import ssa
+    from btclib.hashes import sha256
+    from btclib.to_pub_key import pub_keyinfo_from_prv_key
+    msgs, qs, sigs = [], [], []
+    for i, k in enumerate((K1, K2, 7)):
+        m = b"batch %d" % i
+        msgs.append(m)
+        qs.append(pub_keyinfo_from_prv_key(k, compressed=True)[0][1:])
+        sigs.append(ssa.sign(m, k))
+    assert ssa.batch_verify(msgs, qs, sigs)
+    sobj = [{"obj": ["btclib.ecc.ssa.Sig", x.serialize().hex()]} for x in sigs]
+    add("btclib.ecc.ssa.batch_verify", [G.L(G.B(m) for m in msgs), G.L(G.B(q) for q in qs), G.L(sobj)])
+    hs = [sha256(m) for m in msgs]
+    sigs_ = [ssa.sign_(h, k) for h, k in zip(hs, (K1, K2, 7))]
+    assert ssa.batch_verify_(hs, qs, sigs_)
+    add("btclib.ecc.ssa.batch_verify_", [G.L(G.B(h) for h in hs), G.L(G.B(q) for q in qs),
+                                        G.L({"obj": ["btclib.ecc.ssa.Sig", x.serialize().hex()]} for x in sigs_)])
+
+
+def _musig2_seeds(add):
+    from btclib.ecc import musig2 as M
+    keys = [K1, K2]
+    pubs = [M.individual_pub_key(k) for k in keys]
+    msg = b"\x07" * 32
+    nonces = [M.nonce_gen(k, p, None, msg) for k, p in zip(keys, pubs)]
+    pub_nonces = [n[1] for n in nonces]
+    agg = M.nonce_agg(pub_nonces)
+    ctx = M.SessionContext(agg, pubs, [], [], msg)
+    psig = M.sign(nonces[0][0], keys[0], ctx)
+    assert M.partial_sig_verify(psig, pub_nonces, pubs, [], [], msg, 0)
+    add("btclib.ecc.musig2.partial_sig_verify", [G.B(psig), G.L(G.B(n) for n in pub_nonces), G.L(G.B(p) for p in pubs), G.L([]), G.L([]), G.B(msg), 0])
+    cspec = {"call": ["btclib.ecc.musig2.SessionContext", [G.B(agg), G.L(G.B(p) for p in pubs), G.L([]), G.L([]), G.B(msg)], {}]}
+    assert M.partial_sig_verify_(psig, pub_nonces[0], pubs[0], ctx)
+    add("btclib.ecc.musig2.partial_sig_verify_", [G.B(psig), G.B(pub_nonces[0]), G.B(pubs[0]), cspec])
+
+
+def _borromean_seeds(add):
+    from btclib.curves import mult
+    from btclib.ecc import borromean
+    msg = b"borromean"
+    prv = [[3, 5], [7, 11, 13]]
+    rings = [[mult(k) for k in ring] for ring in prv]
+    idx = [1, 0]
+    sign_keys = [prv[0][1], prv[1][0]]
+    sig = borromean.sign(msg, [17, 19], idx, sign_keys, rings)
+    assert borromean.verify(msg, sig, rings)
+    rspec = G.L(G.L(G.T([p[0], p[1]]) for p in ring) for ring in rings)
+    b = sig.serialize()
+    add("btclib.ecc.borromean.verify", [G.B(msg), G.B(b), rspec])
+    add("btclib.ecc.borromean.verify", [G.B(msg), {"call": ["btclib.ecc.borromean.BorromeanSig.parse", [G.B(b)], {"rsizes": G.L([2, 3])}]}, rspec])
 
 
 def _dleq(dleq):
